@@ -24,6 +24,7 @@ fn c13_call_contract(p: usize) {
         <AxelarGateway as AxelarGatewayMessagingInterface>::call_contract(env.clone(), caller.clone(), chain.clone(), addr.clone(), payload.clone())
     });
     kani::assert(model::auth_of(&caller), "VERIF:C13:outbound call only with the sender's authorisation");
+    kani::assert(model::auth_of(&caller), "VERIF:C07:a cross-chain call is sent as an address only with that address's authorisation");
     kani::assert(model::events_len() == 1, "VERIF:C13:exactly one announcement");
     kani::assert(model::event_contract(0) == gw(), "VERIF:C13:announcement is published by the gateway");
     let want = model::topics_of(&(Symbol::new(&env, "contract_called"), caller.clone(), chain.clone(), addr.clone(), BytesN::<32>::from_array(&env, &spec_hash)));
